@@ -312,6 +312,12 @@ func (s *Server) Subscribe(stream pb.GNMI_SubscribeServer) error {
 			&matchClient{acl: c.acl, q: c.queue})
 		verifPoint("subscribe.registered", c.sr)
 		defer remove()
+		// The target may have been removed between the check above and the
+		// registration: its whole-target delete was then announced before this
+		// stream could receive it and the stream would never end.
+		if !s.c.HasTarget(c.target) {
+			return status.Errorf(codes.NotFound, "no such target: %q", c.target)
+		}
 		if !c.sr.GetSubscribe().GetUpdatesOnly() {
 			go s.processSubscription(&c)
 		}
